@@ -168,6 +168,63 @@ Arguments ok {V R}. Arguments knows {V}. Arguments consistent {V}. Arguments uni
 Arguments respects {V R}.
 
 (* ------------------------------------------------------------------------------------------ *)
+(* 3b. the memoising operations of api.py as programs of the model                              *)
+(* ------------------------------------------------------------------------------------------ *)
+(* api.filter_out_stats, per (row group, column, bound):
+       if not hasattr(s, "converted_max"):          Get k            (absent ->)
+           b = ensure_bytes(max); vmax = read_plain(b, ...); vmax = convert(vmax, se)   reads of immutable data
+           s["converted_max"] = vmax                Put k (f vals)
+       vmax = s["converted_max"]                    Get k
+   api.ParquetFile.statistics / key_value_metadata / pandas_metadata / categories have the same shape
+   (`if self._x is None: self._x = compute(immutable); return self._x`).
+   [memo_compute k ks f err cont]: look memo key k up; when absent read the immutable keys ks, store
+   f of what was read, read it back; continue with the value.  [err]: the result if the read-back
+   found nothing (KeyError in the code; unreachable under the discipline). *)
+Section MemoOps.
+Variable V R : Type.
+
+Fixpoint read_all (ks : list N) (acc : list (option V)) (cont : list (option V) -> prog V R) : prog V R :=
+  match ks with
+  | [] => cont (rev acc)
+  | k :: r => Get k (fun o => read_all r (o :: acc) cont)
+  end.
+
+Definition memo_compute (k : N) (ks : list N) (f : list (option V) -> V) (err : R) (cont : V -> prog V R) : prog V R :=
+  Get k (fun o => match o with
+                  | Some v => cont v
+                  | None => read_all ks [] (fun vals =>
+                              Put k (f vals) (Get k (fun o' => match o' with Some v => cont v | None => Ret err end)))
+                  end).
+
+(* an operation that consults a sequence of memoised values (all statistics of the row groups a
+   filter touches), may stop early ([stop], e.g. `return True` in filter_out_stats) and otherwise
+   computes its result from all of them ([fin]) *)
+Variable f : N -> list (option V) -> V.
+Variable stop : list V -> option R.
+Variable fin : list V -> R.
+Variable err : R.
+
+Fixpoint memo_seq (l : list (N * list N)) (acc : list V) : prog V R :=
+  match l with
+  | [] => Ret (fin acc)
+  | (k, ks) :: rest =>
+    memo_compute k ks (f k) err
+      (fun v => match stop (v :: acc) with Some r => Ret r | None => memo_seq rest (v :: acc) end)
+  end.
+
+(* the same computation as a pure function of the immutable data *)
+Variable base : store V.
+Fixpoint pure_seq (l : list (N * list N)) (acc : list V) : R :=
+  match l with
+  | [] => fin acc
+  | (k, ks) :: rest =>
+    let v := f k (map base ks) in
+    match stop (v :: acc) with Some r => r | None => pure_seq rest (v :: acc) end
+  end.
+End MemoOps.
+Arguments read_all {V R}. Arguments memo_compute {V R}. Arguments memo_seq {V R}. Arguments pure_seq {V R}.
+
+(* ------------------------------------------------------------------------------------------ *)
 (* 4. the schema tree of schema.py (impl model of schema_tree, statement by statement)          *)
 (* ------------------------------------------------------------------------------------------ *)
 (* A schema is the depth-first list of its elements (name id, num_children).  The shared state is,
